@@ -16,7 +16,10 @@ import Sml.Lemmas.C12
 
   In all "inside a frame" states `raw_msg_len` is the number of bytes since `pre`, and the running
   digest covers `START ++ stuff dd` plus the `0x1b` bytes of a pending escape.
-  `sinv_pushByte` is the step lemma.
+  `sinv_pushByte` is the step lemma.  Then the front-ends: histories (`sound_run`), streams
+  (`sound_pushAll`), `decode` (`sound_decodeAll_go`), `DecoderReader` (`Rdr.sound_calls`),
+  `DecodeIterator` (`DecIter.sound_take`); and, together with the tiling invariant of
+  `DecSound1.lean`, `frame_tile_aux`: a delivered frame starts exactly at the previous boundary.
 -/
 namespace Sml
 
